@@ -257,6 +257,10 @@ pub fn tr_expr(cx: &mut Ctx, e: &Expr, expected: Option<&Ty>) -> R<Tr> {
         }
         Expr::Index(ix) => {
             let base = tr_expr(cx, &ix.expr, None)?;
+            let base = match &base.ty {
+                Ty::Struct(sn) if sn == "Data" => Tr::new(format!("{}.f_0", base.s), Ty::List(Box::new(Ty::F64))),
+                _ => base,
+            };
             let elem = match &base.ty {
                 Ty::List(t) => (**t).clone(),
                 t => return Err(format!("index on {:?}", t)),
@@ -606,6 +610,48 @@ pub fn tr_pat(cx: &mut Ctx, p: &Pat, ty: &Ty) -> R<String> {
 }
 
 fn tr_match(cx: &mut Ctx, m: &ExprMatch, expected: Option<&Ty>) -> R<Tr> {
+    if m.arms.iter().any(|a| a.guard.is_some()) {
+        // arms are integer literals or `_`, possibly guarded: an if-chain
+        let scrut = tr_expr(cx, &m.expr, None)?;
+        if !is_int(&scrut.ty) {
+            return Err("match guard on non-integer scrutinee".into());
+        }
+        let mut conds: Vec<(Option<String>, Tr)> = vec![];
+        let mut ty: Option<Ty> = expected.cloned();
+        for arm in &m.arms {
+            let pc = match &arm.pat {
+                Pat::Wild(_) => None,
+                Pat::Lit(l) => match &l.lit {
+                    Lit::Int(i) => Some(format!("({} = ({} : Int))", scrut.s, i.base10_digits())),
+                    _ => return Err("match guard with non-int literal".into()),
+                },
+                _ => return Err("match guard with binding pattern".into()),
+            };
+            let gc = match &arm.guard {
+                Some((_, g)) => Some(tr_expr(cx, g, Some(&Ty::Bool))?.as_prop()),
+                None => None,
+            };
+            let c = match (pc, gc) {
+                (None, None) => None,
+                (Some(a), None) => Some(a),
+                (None, Some(b)) => Some(b),
+                (Some(a), Some(b)) => Some(format!("({} ∧ {})", a, b)),
+            };
+            let body = tr_expr(cx, &arm.body, ty.as_ref())?;
+            if ty.is_none() && !matches!(body.ty, Ty::Never) {
+                ty = Some(body.ty.clone());
+            }
+            conds.push((c, body));
+        }
+        let mut out = String::from("panicV");
+        for (c, b) in conds.into_iter().rev() {
+            out = match c {
+                None => b.val(),
+                Some(c) => format!("(if {} then {} else {})", c, b.val(), out),
+            };
+        }
+        return Ok(Tr::new(out, ty.unwrap_or(Ty::Unit)));
+    }
     let scrut = tr_expr(cx, &m.expr, None)?;
     let pre = String::new(); // hoisted `iter.next()` bindings are emitted by the enclosing statement
     let mut ty: Option<Ty> = expected.cloned();
@@ -643,11 +689,40 @@ pub fn call_fn(cx: &mut Ctx, key: &str, recv: Option<&Tr>, args: &Punctuated<Exp
     if fi.params.len() != args.len() {
         return Err(format!("arity mismatch calling {}", key));
     }
+    if fi.param_ref.iter().any(|r| *r == 2) {
+        // `f(&mut x, …)`: hoist `let (r, x') := f x …` and rebind x
+        let mut ss = vec![];
+        if let Some(r) = recv {
+            ss.push(r.val());
+        }
+        let mut outs = vec![];
+        for (i, (a, (_, pty))) in args.iter().zip(fi.params.iter()).enumerate() {
+            let v = tr_expr(cx, a, Some(pty))?;
+            if fi.param_ref[i] == 2 {
+                let place = match strip(a) {
+                    Expr::Path(p) if p.path.segments.len() == 1 => p.path.segments[0].ident.to_string(),
+                    _ => return Err("&mut argument is not a local".into()),
+                };
+                let ln = cx.lookup(&place).ok_or("&mut argument unknown")?.0;
+                outs.push(ln);
+            }
+            ss.push(v.val());
+        }
+        cx.deps.insert(key.to_string());
+        let tmp = cx.fresh("r");
+        cx.prelude.push(format!("let ({}, {}) := ({} (α := α) {})\n", tmp, outs.join(", "), fi.lean_name, ss.join(" ")));
+        return Ok(Tr::new(tmp, fi.ret.clone()));
+    }
     let mut ss = vec![];
     if let Some(r) = recv {
         ss.push(r.val());
     }
     for (a, (_, pty)) in args.iter().zip(fi.params.iter()) {
+        if let Ty::Fn(ins, out) = pty {
+            let (f, _) = tr_closure(cx, a, ins, Some(out))?;
+            ss.push(f);
+            continue;
+        }
         let v = tr_expr(cx, a, Some(pty))?;
         ss.push(v.val());
     }
@@ -733,8 +808,26 @@ fn tr_call(cx: &mut Ctx, c: &ExprCall, expected: Option<&Ty>) -> R<Tr> {
         let hi = tr_expr(cx, &c.args[2], Some(&Ty::F64))?;
         return Ok(Tr::new(format!("(ntClamp {} {} {})", x.s, lo.s, hi.s), Ty::F64));
     }
+    if segs.len() == 2 && segs[0] == "Statistics" {
+        let key = format!("IterStatistics::{}", last);
+        if cx.idx.fns.contains_key(&key) {
+            let recv = tr_expr(cx, &c.args[0], None)?;
+            let rest: Punctuated<Expr, Token![,]> = c.args.iter().skip(1).cloned().collect();
+            return call_fn(cx, &key, Some(&recv), &rest);
+        }
+    }
+    if segs.len() == 2 && segs[0] == "OrderStatistics" && c.args.len() == 1 {
+        // UFCS on a `&mut` place: rewrite to a method call
+        let inner = match &c.args[0] {
+            Expr::Reference(r) => (*r.expr).clone(),
+            e => e.clone(),
+        };
+        let id = p.path.segments.last().unwrap().ident.clone();
+        let mc: ExprMethodCall = syn::parse_quote!(#inner.#id());
+        return crate::method::tr_method(cx, &mc, expected);
+    }
     if segs.len() == 2 && segs[0] == "Vec" && (last == "new" || last == "with_capacity") {
-        let t = expected.cloned().ok_or("Vec::new() of unknown type")?;
+        let t = expected.cloned().unwrap_or(Ty::List(Box::new(Ty::F64)));
         return Ok(Tr::new(format!("([] : {})", cx.lean_ty(&t)?), t));
     }
     if segs.len() == 2 && segs[0] == "NonZeroU64" && last == "new" {
@@ -743,7 +836,17 @@ fn tr_call(cx: &mut Ctx, c: &ExprCall, expected: Option<&Ty>) -> R<Tr> {
     }
     match cx.resolve(&segs) {
         Resolved::Fn(k) => call_fn(cx, &k, None, &c.args),
-        Resolved::Local(_) => Err("call of local closure".into()),
+        Resolved::Local(ln) => {
+            let (_, ty) = cx.lookup(&segs[0]).unwrap();
+            if let Ty::Fn(ins, out) = ty {
+                let mut ss = vec![];
+                for (a, t) in c.args.iter().zip(ins.iter()) {
+                    ss.push(tr_expr(cx, a, Some(t))?.val());
+                }
+                return Ok(Tr::new(format!("({} {})", ln, ss.join(" ")), (*out).clone()));
+            }
+            Err("call of local closure".into())
+        }
         Resolved::Variant(en, v) => {
             let ei = cx.idx.enums.get(&en).unwrap().clone();
             let i = ei.variants.iter().position(|x| *x == v).unwrap();
